@@ -3,7 +3,7 @@ from facts import AnalysisBroken
 from model import dstr, strip, fact_holds, mentions_field, mentions_call, mentions_var, const_value
 from props.scan_common import check_build_exit_codes
 from rules import (guarded, calls_to, field_writes, who_may_write, error_discipline, atom_cmp,
-                   is_enum, is_var, is_field, has_field, anything, must_pass, basename)
+                   is_enum, is_var, is_field, has_field, anything, must_pass, basename, origins)
 
 STATUS = 'BuildResult::CommandCompleted::status'
 
@@ -224,8 +224,9 @@ def run(ctx):
     ast = prog.fn('Plan::AddSubTarget')
     n = 0
     for e in ast.events('call'):
-        if basename(e.get('name') or '') in ('operator=', 'assign') and \
-                'err' in dstr(e.get('recv')) and 'missing and no known rule' in dstr(e.get('args')):
+        if basename(e.get('name') or '') in ('operator=', 'assign') and 'err' in dstr(e.get('recv')) and \
+                ('missing and no known rule' in dstr(e.get('args')) or
+                 any('missing and no known rule' in dstr(o) for a in (e.get('args') or []) for o in origins(ast, a))):
             n += 1
             facts = ast.facts_at(e)
             ok = fact_holds(facts, lambda a: mentions_field(a, 'Node::dirty_'), True) and \
